@@ -248,6 +248,28 @@ def provider_sweep(ctx, rng, provider, budget):
                     return
             import shutil
             shutil.rmtree(sb.path("emu%d" % (n - 1)), ignore_errors=True)
+        # two faults in one upload: the server stores a corrupted object AND its reply lacks the checksum field - nothing was verified,
+        # so nothing may get its final name
+        tag, routes, start, data_route, sum_route = MACHINE[provider]
+        d_idx = [q["index"] for q in ref["requests"] if q["route"] == data_route]
+        s_idx = [q["index"] for q in ref["requests"] if q["route"] == sum_route]
+        if d_idx and s_idx:
+            for combo, script in (("corrupt + omit_checksum", [{"when": {"index": d_idx[0]}, "fault": "corrupt"}, {"when": {"index": [i for i in s_idx if i > d_idx[0]][0]}, "fault": "omit_checksum"}]),
+                                  ("omit_checksum", [{"when": {"index": [i for i in s_idx if i > d_idx[0]][0]}, "fault": "omit_checksum"}])):
+                r = sc.run(n, script=script)
+                n += 1
+                ctx.evaluations += 1
+                ctx.count("fault.%s" % combo.replace(" ", ""))
+                ctx.nontrivial.add((provider, combo))
+                label = "%s, %s in the first upload" % (provider, combo)
+                pr = examine(sc, r, label, None)
+                if not pr and r["blobs"].get(sc.final_path(sc.backups[0])):
+                    pr = "%s: the backup got its final name although the provider reported no checksum at all" % label
+                if not pr and not slevel.errors_of(r["out"]):
+                    pr = "%s: no error reported" % label
+                if pr:
+                    ctx.violation("upload", pr, {"provider": provider, "fault": combo, "output": r["out"][-800:]})
+                    return
         # local faults
         stub = sb.path("stub")
         os.makedirs(stub, exist_ok=True)
